@@ -36,7 +36,12 @@ def check_matching(g, m):
     return None
 
 
+_def_at = propgen.definitional_oracle_at(['match_events', 'note_matching'], 'the pairing is a valid maximum matching of the stated predicate')
+
+
 def oracle_at(unit, case, impl):
+    if unit != 'bipartite_match':
+        return _def_at(unit, case, impl)
     if unit == 'bipartite_match':
         g = {u: list(vs) for u, vs in case}
         if impl[0] != 'ok':
